@@ -4,7 +4,7 @@ from . import c05
 ID = 'C10'
 LEVEL = 'model_checking'
 BUDGET = {'quick': 290, 'thorough': 3300}
-BOUNDS = {'quick': 'every throwing call in all histories of depth 2 (47 operations incl. partly-invalid arguments: second of two new points/channels duplicate, untyped parameter into a new group, unnamed parameter, unknown group; 4 start states); full dump before = full dump after decided by z3 (payload symbolic); object printed, saved and reloaded afterwards',
+BOUNDS = {'quick': 'every throwing call in all histories of depth 2 (54 operations incl. partly-invalid arguments: second of two new points/channels duplicate, untyped parameter into a new group, unnamed parameter, unknown group; 4 start states); full dump before = full dump after decided by z3 (payload symbolic); object printed, saved and reloaded afterwards',
           'thorough': 'depth 3'}
 OUTSIDE = 'refusals not in the alphabet; histories deeper than the bound'
 ASSUMPTIONS = []
@@ -23,7 +23,7 @@ def per_step(k, before, call, after, st, sec):
         O.append(Obl('usable/save-reload', f.get('final.reload') != 1, 'after refused %s the object cannot be saved and reloaded (exception class %s)' % (name, f.get('final.class'))))
     return O
 
-def jobs(tier, seed): return hist_jobs(tier, seed, finish=2)
+def jobs(tier, seed): return hist_jobs(tier, seed, finish=2, dupdeclare=1)     # a duplicate declaration on a frame-less object is in the alphabet here: if it is refused it must change nothing
 def run_job(engine, job): return explore(engine, job, ID, per_step)
 
 def native_confirm(nat, v):
